@@ -95,7 +95,7 @@ const PARSERS: &[&str] = &[
     "blte", "encoding", "aidx", "aidxc", "agroup", "root", "install", "download", "size", "tvfs", "tvfsblte",
     "parchive", "pindex", "zbsdiff", "zbsparse", "cfgbuild", "cfgcdn", "cfgpatch", "cfgproduct", "cfgkeyring",
     "bpsv", "espec", "mime", "mimesniff", "idx", "updsec", "residency", "respage", "lru", "shmem", "buildinfo",
-    "localhdr", "mimebpsv", "encchunk",
+    "localhdr", "mimebpsv", "encchunk", "lruload", "lruuse", "enchdr",
 ];
 
 // ---------------------------------------------------------------------------------------------
@@ -203,6 +203,40 @@ fn run_parser(name: &str, d: &[u8], tmp: &std::path::Path) -> bool {
         "residency" => with_file(tmp, "residency.db", d, |p| cascette_client_storage::kmt::key_state::ResidencyDb::load(p).is_ok()),
         "respage" => cascette_client_storage::kmt::key_state::ResidencyPage::from_bytes(d).is_some(),
         "lru" => cascette_client_storage::lru::lru_file::deserialize(d).is_some(),
+        // the file as the newest checkpoint of a data directory: LruManager::run_cycle (load_from_disk,
+        // eviction from the tail, scan, for_each_entry); "lruuse": then the list operations on what
+        // was loaded
+        "lruload" | "lruuse" => {
+            let dir = tmp.join("lruload");
+            let _ = std::fs::remove_dir_all(&dir);
+            std::fs::create_dir_all(&dir).expect("worker temp dir");
+            std::fs::write(cascette_client_storage::lru::lru_file::lru_file_path(&dir, 7), d).expect("worker temp write");
+            let rt = tokio::runtime::Builder::new_current_thread().enable_all().build().expect("runtime");
+            let mut m = cascette_client_storage::lru::LruManager::new(4, dir.clone());
+            let ok = rt.block_on(m.run_cycle(1, 1)).is_ok();
+            let mut n = 0usize;
+            if ok {
+                m.for_each_entry(|_| n += 1);
+            }
+            if ok && name == "lruuse" {
+                for k in [[1u8; 9], [2u8; 9], [0xEEu8; 9]] {
+                    m.touch(&k);
+                }
+                m.remove(&[3u8; 9]);
+                m.for_each_entry(|_| n += 1);
+                m.evict_to_target(64, 1);
+                m.for_each_entry(|_| n += 1);
+                m.touch(&[4u8; 9]);
+                m.for_each_entry(|_| n += 1);
+            }
+            std::hint::black_box(n);
+            let _ = std::fs::remove_dir_all(&dir);
+            ok
+        }
+        "enchdr" => {
+            use binrw::BinRead;
+            cascette_formats::blte::EncryptedHeader::read_le(&mut Cursor::new(d)).is_ok()
+        }
         "shmem" => cascette_client_storage::shmem::ShmemControlBlock::from_mapped(d).is_some(),
         "buildinfo" => cascette_client_storage::BuildInfoFile::parse_str(&String::from_utf8_lossy(d)).is_ok(),
         "localhdr" => match cascette_client_storage::storage::local_header::LocalHeader::from_bytes(d) {
@@ -334,6 +368,8 @@ struct Pool {
 
 impl Pool {
     fn run(&mut self, parser: &str, data: &[u8]) -> Obs {
+        // list operations on a table of a few entries take microseconds: a hang shows at once
+        let timeout = if parser == "lruuse" { Duration::from_millis(1500) } else { self.timeout };
         if self.w.is_none() {
             self.w = Some(Worker::spawn());
             self.respawns += 1;
@@ -347,7 +383,7 @@ impl Pool {
             self.w = None;
             return Obs { class: "abort", max_alloc: 0, site: "spawn".into(), detail: "-".into() };
         }
-        match w.rx.recv_timeout(self.timeout) {
+        match w.rx.recv_timeout(timeout) {
             Ok(l) => {
                 let t: Vec<&str> = l.split(' ').collect();
                 let class = match t.first().copied() {
@@ -601,8 +637,10 @@ impl Ctx {
                 self.s.oracle_fail(&sig, &format!("{parser} aborted the process ({}; refused request {} bytes) on {} input bytes [{seed_id} {et}]", obs.site, obs.max_alloc, data.len()), &short(&replay));
             }
             _ => {
-                let sig = format!("timeout-{parser}");
-                self.s.oracle_fail(&sig, &format!("{parser} did not return within {:?} on {} bytes [{seed_id} {et}]", self.pool.timeout, data.len()), &short(&replay));
+                // narrow sig for the shape C17 records as format-level (lru-zero-key-reload): an entry
+                // with the all-zero key ON the list comes back linked AND free, the next touch reuses it
+                let sig = if parser == "lruuse" && lru_zero_key_linked(&data) { "lruuse-zero-key-linked".to_string() } else { format!("timeout-{parser}") };
+                self.s.oracle_fail(&sig, &format!("{parser} did not return within its time limit on {} bytes [{seed_id} {et}]", data.len()), &short(&replay));
             }
         }
         if big && obs.class != "abort" {
@@ -860,6 +898,10 @@ const ESPEC_FORMS: &[&str] = &[
     "e:{237DA26C65073F42,06FC152E,b:{*=e:{237DA26C65073F42,06FC152E,n}}}", "b:n", "b:z:9", "b:256K*=z", "b:*=n", "b:*", "b:256K", "b:",
     "b:{164=z,16K*565=z:{6,mpq},1M*=n}", "b:{*=z,*=n}", "b:{1G=z}", "b:{1T=z}", "b:{16K*4294967295=z}", "b:{16K*4294967296=z}",
     "b:{*5=n}", "b:{*4294967296=n}", "b:{18446744073709551615=n}", "b:{18446744073709551616=n}", "b:{18446744073709551615M=n}",
+    // a size whose K/M-scaled value does not fit u64 (fix 2261323), the largest that fit, both forms
+    "b:{18014398509481983K=n}", "b:{18014398509481984K=n}", "b:{17592186044415M=n}", "b:{17592186044416M=n}",
+    "b:18446744073709551615K=n", "b:18014398509481984K*=n", "b:18014398509481983K*=n", "b:{1=n,18446744073709551615M*2=z}",
+    "b:18446744073709551615=n", "b:{0K=n}", "b:0M*0=n",
     "b:{1M*=b:{1K*=b:{256*=z}}}", "b:{1=n,}", "b:{1=n", "b:{=n}", "b:{1K*3=n,2M=z:{9,mpq},*=c:{4}}", "x", "nn", "n}", "b:{1=n}}",
 ];
 
@@ -1775,6 +1817,144 @@ fn library_nesting_cases(c: &mut Ctx, thorough: bool) {
     }
 }
 
+/// does the table (accepted by `deserialize`) have an entry with the all-zero key on its `next`
+/// chain from the LRU tail? (own bounded walk)
+fn lru_zero_key_linked(d: &[u8]) -> bool {
+    let Some((h, es)) = cascette_client_storage::lru::lru_file::deserialize(d) else {
+        return false;
+    };
+    let mut idx = h.lru_tail;
+    for _ in 0..=es.len() {
+        let Some(e) = es.get(idx as usize) else {
+            return false;
+        };
+        if !e.is_active() {
+            return true;
+        }
+        idx = e.next;
+    }
+    false
+}
+
+/// a `.lru` file (right MD5) with the given head, tail and entries (prev, next, key byte; key byte 0
+/// = an inactive entry)
+fn lru_links_file(head: u32, tail: u32, entries: &[(u32, u32, u8)]) -> Vec<u8> {
+    use cascette_client_storage::lru::lru_file::{LruFileEntry, LruFileHeader, serialize};
+    let h = LruFileHeader { version: 1, hash: [0; 16], mru_head: head, lru_tail: tail };
+    let es: Vec<LruFileEntry> = entries.iter().map(|&(prev, next, k)| LruFileEntry { prev, next, ekey: [k; 9], flags: 0 }).collect();
+    serialize(&h, &es)
+}
+
+/// LRU tables with the RIGHT checksum and every link field (head, tail, each prev / next) set to
+/// every boundary index (0, 1, n-1, n, n+1, its own slot, 2^31-1, 2^31, 2^32-2, the sentinel), on
+/// well-formed lists of 0..5 entries in three slot orders; `next` cycles of every length at every
+/// position; random tables whose links are drawn from {sentinel, 0..n+1}. Loaded through
+/// `LruManager::run_cycle` and then used (touch / remove / evict / for_each_entry).
+fn lru_link_cases(c: &mut Ctx, rng: &mut Rng, thorough: bool) {
+    c.seed("empty", vec![]);
+    const S: u32 = 0xFFFF_FFFF;
+    let run = |c: &mut Ctx, head: u32, tail: u32, es: &[(u32, u32, u8)], kind: &str| {
+        let d = lru_links_file(head, tail, es);
+        c.case("lruload", "empty", &[Edit::App(d.clone())], kind);
+        c.case("lru", "empty", &[Edit::App(d.clone())], kind);
+        // the list operations after the load. Tables with the all-zero key ON the list can hang there
+        // (known finding lruuse-zero-key-linked; each hang costs the time limit): only the witness
+        // shape below is run through them
+        if lru_zero_key_linked(&d) {
+            c.s.tally("lru-links:zero-key-linked");
+        } else {
+            c.case("lruuse", "empty", &[Edit::App(d)], kind);
+        }
+    };
+    // a well-formed list over the slots in `order` (tail first)
+    let list = |order: &[u32], slots: usize| -> (u32, u32, Vec<(u32, u32, u8)>) {
+        let mut es = vec![(S, S, 0u8); slots];
+        for (i, &sl) in order.iter().enumerate() {
+            es[sl as usize] = (if i == 0 { S } else { order[i - 1] }, if i + 1 == order.len() { S } else { order[i + 1] }, 1 + sl as u8);
+        }
+        (order.last().copied().unwrap_or(S), order.first().copied().unwrap_or(S), es)
+    };
+    for n in 0..=5u32 {
+        let orders: Vec<Vec<u32>> = vec![(0..n).collect(), (0..n).rev().collect(), (0..n).map(|i| (i * 2 + 1) % n.max(1)).collect::<Vec<_>>()];
+        for (oi, order) in orders.iter().enumerate() {
+            if oi == 2 && n % 2 == 0 {
+                continue; // not a permutation for even n
+            }
+            // one free slot behind the list for n in 1..=3
+            let slots = n as usize + usize::from((1..=3).contains(&n));
+            let (head, tail, es) = list(order, slots);
+            run(c, head, tail, &es, "lru-links-wellformed");
+            let ns = slots as u32;
+            let fields = 2 + 2 * slots;
+            for f in 0..fields {
+                for v in [0u32, 1, ns.wrapping_sub(1), ns, ns + 1, 0x7FFF_FFFF, 0x8000_0000, 0xFFFF_FFFE, S, f.saturating_sub(2) as u32 / 2] {
+                    let (mut h2, mut t2, mut e2) = (head, tail, es.clone());
+                    match f {
+                        0 => h2 = v,
+                        1 => t2 = v,
+                        _ => {
+                            let slot = (f - 2) / 2;
+                            if (f - 2) % 2 == 0 { e2[slot].0 = v } else { e2[slot].1 = v }
+                        }
+                    }
+                    run(c, h2, t2, &e2, "lru-links-field");
+                }
+            }
+            // next cycles: the entry at list position i points back to position j <= i
+            for i in 0..order.len() {
+                for j in 0..=i {
+                    let mut e2 = es.clone();
+                    e2[order[i] as usize].1 = order[j];
+                    run(c, head, tail, &e2, "lru-links-cycle");
+                }
+            }
+        }
+    }
+    // the known shape: one slot, linked (head = tail = 0), all-zero key
+    c.case("lruuse", "empty", &[Edit::App(lru_links_file(0, 0, &[(S, S, 0)]))], "lru-links-zero-key");
+    for _ in 0..if thorough { 4000 } else { 400 } {
+        let n = rng.range(1, 6) as u32;
+        let pick = |rng: &mut Rng| -> u32 { if rng.chance(1, 4) { S } else { rng.below(u64::from(n) + 2) as u32 } };
+        let head = pick(rng);
+        let tail = pick(rng);
+        let es: Vec<(u32, u32, u8)> = (0..n).map(|i| (pick(rng), pick(rng), if rng.chance(1, 5) { 0 } else { 1 + (i as u8 % 3) })).collect();
+        run(c, head, tail, &es, "lru-links-random");
+    }
+}
+
+/// `blte::EncryptedHeader::read`: key-name size x IV size x the type byte (ALL 256 values for the
+/// usual 8/4 and 8/8 shapes), complete and cut at every length
+fn enc_hdr_cases(c: &mut Ctx, thorough: bool) {
+    c.seed("empty", vec![]);
+    for kns in [0u8, 1, 8, 9, 255] {
+        for ivs in [0u8, 4, 8, 255] {
+            let usual = kns == 8 && (ivs == 4 || ivs == 8);
+            let types: Vec<u8> = if usual || thorough { (0..=255).collect() } else { vec![0x53, 0x41, 0x00, 0x45, 0x73, 0xFF] };
+            for t in types {
+                let mut d = vec![kns];
+                d.extend((0..kns).map(|i| i.wrapping_mul(3)));
+                d.push(ivs);
+                d.extend((0..ivs).map(|i| 0x11u8.wrapping_add(i)));
+                d.push(t);
+                c.case("enchdr", "empty", &[Edit::App(d.clone())], "enchdr");
+                if t == 0x53 || t == 0x00 {
+                    if usual {
+                        for l in 0..d.len() {
+                            c.case("enchdr", "empty", &[Edit::App(d[..l].to_vec())], "enchdr");
+                        }
+                    } else {
+                        for l in [0, 1, d.len() / 2, d.len() - 1] {
+                            c.case("enchdr", "empty", &[Edit::App(d[..l].to_vec())], "enchdr");
+                        }
+                    }
+                    d.extend_from_slice(&[1, 2, 3]);
+                    c.case("enchdr", "empty", &[Edit::App(d)], "enchdr");
+                }
+            }
+        }
+    }
+}
+
 /// element sizes of the vectors the parsers pre-size (taken by the model as parameters)
 fn cfg_line(c: &mut Ctx) {
     use std::mem::size_of;
@@ -1923,6 +2103,9 @@ fn main() {
     espec_nesting_cases(&mut c, &mut rng, thorough);
     tvfs_nesting_cases(&mut c, &mut rng, thorough);
     library_nesting_cases(&mut c, thorough);
+    // 3f. LRU tables with the right checksum and hostile links; the public EncryptedHeader reader
+    lru_link_cases(&mut c, &mut rng, thorough);
+    enc_hdr_cases(&mut c, thorough);
     // 3c. V1 MIME epilogue lines of every length; 3d. encrypted-chunk headers with known key names
     mime_epilogue_cases(&mut c, thorough);
     enc_header_cases(&mut c, thorough);
